@@ -182,6 +182,107 @@ func rulesC01(c *Ctx) {
 		c.Pin("retire: pre-registration", roles["pre-registration"], 2)
 	})
 
+	c.Rule("R-C01-17", "a call whose request could not be written is completed, however the write path is factored: when Call no longer goes through Connection.write + Retire (R-C01-3's shape) but writes and retires in place, then with the write failed and the call still registered every way out of Call passes a locked closure that retires it, and every path through that closure does", func() {
+		call := c.Fn(pJ, "Connection", "Call")
+		writeObj := c.FnObj(pJ, "Connection", "write")
+		retireObj := c.FnObj(pJ, "AsyncCall", "retire")
+		outgoing := c.Field(pJ, "inFlightState", "outgoingCalls")
+		g := call.Graph()
+		if len(g.callVertices(writeObj)) > 0 {
+			c.Ok("Call:failed-write-retires", call, nil, "Call writes through Connection.write and retires through Connection.Retire: decided by R-C01-3")
+			return
+		}
+		// the transport write and its error
+		wv := -1
+		var errVar types.Object
+		for v := 0; v < g.N; v++ {
+			if g.Node(v) == nil {
+				continue
+			}
+			for _, cl := range call.AllCalls(g.Node(v), false) {
+				if fn := call.Callee(cl); fn != nil && fn.Name() == "Write" {
+					if sel, ok := ast.Unparen(cl.Fun).(*ast.SelectorExpr); ok && strings.HasSuffix(call.FieldPath(sel.X), ".writer") {
+						wv, errVar = v, errVarOfCall(call, g.Node(v))
+					}
+				}
+			}
+		}
+		c.Need(wv >= 0 && errVar != nil, "Call: the transport write and its error")
+		isAC := func(f *Func, e ast.Expr) bool {
+			n := namedOf(f.TypeOf(e))
+			return n != nil && n.Obj().Name() == "AsyncCall"
+		}
+		var retiring []int
+		okInside := true
+		for _, s := range c.uifSites(call) {
+			if len(s.Lit.CallsIn(s.Lit.Body, retireObj, false)) == 0 || !g.ReachableFrom(wv)[g.VertexOf(s.Call)] {
+				continue
+			}
+			retiring = append(retiring, g.VertexOf(s.Call))
+			lg := s.Lit.Graph()
+			isRetire := func(v int) bool { return lg.Node(v) != nil && s.Lit.ContainsCall(lg.Node(v), retireObj) }
+			leaf := func(e ast.Expr) tri {
+				if x, twn, ok := NilTest(e); ok && isAC(s.Lit, x) {
+					if twn {
+						return triFalse
+					}
+					return triTrue
+				}
+				// still registered: outgoingCalls[id] == ac
+				if x, y, op, ok := binaryCmp(e); ok && (op == token.EQL || op == token.NEQ) {
+					for _, side := range []ast.Expr{x, y} {
+						if m, _, isIx := indexOf(side); isIx && s.Lit.IsField(m, outgoing) {
+							if op == token.EQL {
+								return triTrue
+							}
+							return triFalse
+						}
+					}
+				}
+				return triUnknown
+			}
+			avoid := lg.ReachUnder(leaf, isRetire)
+			for _, x := range lg.Exits {
+				if avoid[x] && !isRetire(x) {
+					okInside = false
+					c.Fail("Call:failed-write-retires:inside-the-closure", s.Lit, lg.Node(x), "a path through the locked closure leaves without retiring a call that is still registered: its Await blocks until the context ends, and the connection never becomes idle")
+				}
+			}
+		}
+		c.Need(len(retiring) > 0, "Call: a locked closure behind the write that retires the call")
+		leaf := func(e ast.Expr) tri {
+			if x, twn, ok := NilTest(e); ok {
+				if call.ObjOf(x) == errVar || isAC(call, x) {
+					if twn {
+						return triFalse
+					}
+					return triTrue
+				}
+			}
+			return triUnknown
+		}
+		isRet := func(v int) bool {
+			for _, r := range retiring {
+				if r == v {
+					return true
+				}
+			}
+			return false
+		}
+		avoid := g.ReachUnder(leaf, isRet)
+		after := g.ReachableFrom(wv)
+		okOutside := true
+		for _, x := range g.Exits {
+			if avoid[x] && after[x] && !isRet(x) {
+				okOutside = false
+			}
+		}
+		c.Check(okOutside, "Call:failed-write-retires:reaches-the-closure", call, g.Node(wv), "with the write failed every way out of Call passes the locked closure that retires the call")
+		if okInside {
+			c.Ok("Call:failed-write-retires:inside-the-closure", call, nil, "every path through the retiring closure(s) retires a call that is still registered")
+		}
+	})
+
 	c.Rule("R-C01-3", "Call registers the call under the state lock (refusing when shutting down) before writing, and retires it when the write fails", func() {
 		call := c.Fn(pJ, "Connection", "Call")
 		g := call.Graph()
